@@ -3,6 +3,41 @@ use crate::util::esc;
 use expression_engine::ExprAST;
 use serde_json::{json, Value as J};
 
+/// Inverse of the escaping `impl Debug for str` applies: \\ \" \' \n \r \t \0 \u{hex}.
+fn undebug(s: &str) -> String {
+    let mut out = String::new();
+    let mut it = s.chars().peekable();
+    while let Some(c) = it.next() {
+        if c != '\\' {
+            out.push(c);
+            continue;
+        }
+        match it.next() {
+            Some('n') => out.push('\n'),
+            Some('r') => out.push('\r'),
+            Some('t') => out.push('\t'),
+            Some('0') => out.push('\0'),
+            Some('u') => {
+                let mut hex = String::new();
+                if it.next() == Some('{') {
+                    for h in it.by_ref() {
+                        if h == '}' {
+                            break;
+                        }
+                        hex.push(h);
+                    }
+                }
+                if let Some(ch) = u32::from_str_radix(&hex, 16).ok().and_then(char::from_u32) {
+                    out.push(ch);
+                }
+            }
+            Some(other) => out.push(other),
+            None => {}
+        }
+    }
+    out
+}
+
 /// Literal has a private path (`parser::Literal`) but is reachable through pattern matching on the public enum.
 pub fn ast_to_json(a: &ExprAST) -> J {
     match a {
@@ -14,12 +49,8 @@ pub fn ast_to_json(a: &ExprAST) -> J {
             } else if let Some(rest) = d.strip_prefix("Bool(") {
                 json!(["bool", rest.trim_end_matches(')')])
             } else {
-                // take the payload from expr(): "<q>payload<q>"; robust against Debug escaping
-                let e = a.expr();
-                let inner: String = {
-                    let cs: Vec<char> = e.chars().collect();
-                    if cs.len() >= 2 { cs[1..cs.len() - 1].iter().collect() } else { String::new() }
-                };
+                // String("..."): undo the escaping of str's Debug output (independent of expr(), which is under test in C12)
+                let inner = d.strip_prefix("String(\"").and_then(|r| r.strip_suffix("\")")).map(undebug).unwrap_or_default();
                 json!(["str", esc(&inner)])
             }
         }
